@@ -12,6 +12,10 @@
 //!                  conn <C|S<k>|J<outpoint>+…,…|->     a block is connected          → `claimable_outpoints` as `outpoint@creation_height …`
 //!                  disc <newTip>                        blocks are disconnected       → the same        (hook `monitor_claims_view`)
 //!                  rebc | reload                        rebroadcast_pending_claims / monitor + manager written and read back
+//!                Second-stage transactions: legacy ones as signed by the cheater's monitor; anchor HTLC-timeout / -success (and legacy
+//!                HTLC-success) built from the cheater's HTLC descriptors with 1–3 HTLC inputs and a fee input BEFORE / BETWEEN / AFTER them or
+//!                none (`build_second_stage`).  They confirm in the SAME block as the revoked commitment (a third of the scenarios; every order
+//!                the chain allows, unrelated transactions in between) or in later blocks — the block layout is part of every oracle message.
 //!                After the revoked commitment (and a subset of the second-stage txs) confirmed: 0–3 REORGS with the fork point above every
 //!                tracked tx / below the victim's confirmed justice tx / below the second-stage txs / below the commitment (never below a tx
 //!                that has had ANTI_REORG_DELAY confirmations), the other branch re-including the cheater's / the victim's transactions or not
@@ -105,6 +109,15 @@ fn chain_view(node: &Node) -> (u32, HashMap<Txid, u32>, HashMap<OutPoint, (Txid,
 	(blocks.last().unwrap().1, conf, spent)
 }
 
+/// TestChainMonitor asserts `monitor == its write/read round trip` inside update_channel: which fields differ (diagnostic for such a panic)
+fn roundtrip_detail(node: &Node, chan_id: lightning::ln::types::ChannelId) -> String {
+	guarded(AssertUnwindSafe(|| { match node.chain_monitor.chain_monitor.get_monitor(chan_id) { Ok(mon) => {
+		use lightning::util::ser::{ReadableArgs, Writeable};
+		let bytes = mon.encode(); let mut cur = lightning::io::Cursor::new(&bytes[..]);
+		match <(lightning::chain::BlockLocator, lightning::chain::channelmonitor::ChannelMonitor<lightning::util::test_channel_signer::TestChannelSigner>)>::read(&mut cur, (node.keys_manager, node.keys_manager)) {
+			Ok((_, m2)) => format!("monitor vs its round trip now: fields {:?} {:?} differ", mon.verif_unequal_fields(&m2), mon.verif_unequal_onchain_fields(&m2)), Err(e) => format!("unreadable: {:?}", e) } }, Err(_) => "no monitor".to_string() } })).unwrap_or_else(|e| format!("(diagnostic panicked: {})", e.chars().take(80).collect::<String>()))
+}
+
 /// everything the reorg part of a scenario tracks
 struct Ctx {
 	seed: u64, style: String, chan_id: lightning::ln::types::ChannelId,
@@ -117,6 +130,9 @@ struct Ctx {
 	cand: Vec<Transaction>, cand_ids: Vec<Txid>,
 	/// unrelated transactions mined between the interesting ones (they must not confuse the block filter); not part of the model ops
 	noise: BTreeSet<Txid>,
+	/// the victim's own commitment transaction(s) (they spend the funding output): broadcast, with the HTLC claims on top of them, when its
+	/// own HTLCs time out before the cheater moves, or when a reload finds the channel closed while a reorg has un-confirmed the revoked one
+	own_commitments: BTreeSet<Txid>,
 	prevouts: HashMap<OutPoint, TxOut>,
 	/// every victim broadcast with the height at which it was seen; `[..evicted]` have left the mempool
 	bcast: Vec<(u32, Transaction)>, evicted: usize,
@@ -208,7 +224,8 @@ impl Ctx {
 			if std::env::var("C06_DEBUG").is_ok() { eprintln!("h={} bcast {} in={:?} out={:?}", tip, t.compute_txid(), t.input.iter().map(|i| self.name(&i.previous_output)).collect::<Vec<_>>(), t.output.iter().map(|o| o.value.to_sat()).collect::<Vec<_>>()); }
 			// the victim's OWN latest commitment: broadcast (legitimately) when a reload finds the channel closed while the reorg has
 			// left the funding output unspent; it never confirms here (the cheater's transaction is re-mined first)
-			if t.input.len() == 1 && t.input[0].previous_output == self.funding { self.classes.push("own-commitment-broadcast-while-revoked-one-unconfirmed".into()); if conf.get(&self.revoked_txid).map(|h| *h < tip).unwrap_or(false) { self.fail("victim broadcasts its own commitment although the revoked one is confirmed below the tip".into()); } continue; }
+			if !t.input.is_empty() && t.input.iter().all(|i| self.own_commitments.contains(&i.previous_output.txid)) { self.classes.push("own-htlc-claim-broadcast".into()); continue; }
+			if t.input.len() == 1 && t.input[0].previous_output == self.funding { self.own_commitments.insert(t.compute_txid()); self.classes.push("own-commitment-broadcast-while-revoked-one-unconfirmed".into()); if conf.get(&self.revoked_txid).map(|h| *h < tip).unwrap_or(false) { self.fail("victim broadcasts its own commitment although the revoked one is confirmed below the tip".into()); } continue; }
 			let mut unrelated = false;
 			// `rebroadcast_pending_claims` re-issues without touching the request's height timer: the timer deadline below counts from the
 			// last issue that SET the timer (registration, a bump at timer expiry, a split, a resurrection in blocks_disconnected)
@@ -226,12 +243,30 @@ impl Ctx {
 			}
 			self.bcast.push((tip, t));
 		}
+		// the ChannelManager polls the monitor's events after every step, as a running node does (left unpolled across a reorg, a pending
+		// MonitorEvent::HTLCEvent suppresses the re-queued HTLC resolution when a second-stage transaction re-confirms: KF-C11-1, recorded under C11)
+		if let Err(p) = guarded(AssertUnwindSafe(|| { let _ = node.node.get_and_clear_pending_msg_events(); let _ = node.node.get_and_clear_pending_events(); })) { panic!("{} [{}]", p, roundtrip_detail(node, self.chan_id)); }
 		for e in node.chain_monitor.chain_monitor.get_and_clear_pending_events() { if let Event::SpendableOutputs { outputs, .. } = e { for o in outputs { match o {
 			SpendableOutputDescriptor::StaticOutput { outpoint, output, .. } => { self.spendable.insert(outpoint.into_bitcoin_outpoint(), output.value.to_sat()); },
 			SpendableOutputDescriptor::StaticPaymentOutput(d) => { self.to_remote.insert(d.outpoint.into_bitcoin_outpoint(), d.output.value.to_sat()); },
 			SpendableOutputDescriptor::DelayedPaymentOutput(d) => { self.spendable.insert(d.outpoint.into_bitcoin_outpoint(), d.output.value.to_sat()); },
 		} } } }
-		let (claimable, locktimed) = match node.chain_monitor.chain_monitor.get_monitor(self.chan_id) { Ok(mon) => { let (c, l, _, _) = vh::monitor_claims_view(&mon); (c, l) }, Err(_) => { self.fail("victim monitor disappeared".into()); return; } };
+		let (claimable, locktimed) = match node.chain_monitor.chain_monitor.get_monitor(self.chan_id) { Ok(mon) => {
+			// the monitor as it would come back from disk must be the monitor (a reload can happen at any point)
+			use lightning::util::ser::{ReadableArgs, Writeable};
+			let bytes = mon.encode();
+			let mut cur = lightning::io::Cursor::new(&bytes[..]);
+			match <(lightning::chain::BlockLocator, lightning::chain::channelmonitor::ChannelMonitor<lightning::util::test_channel_signer::TestChannelSigner>)>::read(&mut cur, (node.keys_manager, node.keys_manager)) {
+				Ok((_, m2)) => if !mon.verif_eq_modulo_unserialized(&m2) {
+					let (f1, f2) = (mon.verif_unequal_fields(&m2), mon.verif_unequal_onchain_fields(&m2));
+					// PackageTemplate::read zeroes `counterparty_spendable_height` of a package holding a non-offered RevokedHTLCOutput whose
+					// cltv_expiry EQUALS it (a pre-0.1 compatibility fix-up; happens when the revoked commitment confirms exactly at that height):
+					// the value only feeds merge decisions that treat every height below the tip alike — a C12 (round-trip equality) matter, counted
+					if f1 == vec!["onchain_tx_handler"] && f2.iter().all(|d| d.ends_with(":[\"counterparty_spendable_height\"]")) { self.classes.push("round-trip:counterparty_spendable_height-zeroed-on-read".into()); }
+					else { let what = format!("the victim's monitor != its write/read round trip: fields {:?} {:?} differ", f1, f2); self.fail_soft("round-trip", what); } },
+				Err(e) => self.fail_soft("round-trip", format!("the victim's monitor does not read back: {:?}", e)),
+			}
+			let (c, l, _, _) = vh::monitor_claims_view(&mon); (c, l) }, Err(_) => { self.fail("victim monitor disappeared".into()); return; } };
 		if !locktimed.is_empty() && !self.classes.iter().any(|c| c.starts_with("resurrected-claim-parked")) { self.classes.push(format!("resurrected-claim-parked-in-locktimed_packages:{}", if self.lax { "txonly" } else { "full" })); }
 		// ---- the claim bookkeeping as the model sees it: `outpoint@creation_height` of every entry whose parent is on the best chain
 		let mut line: BTreeSet<((u8, u32, u32), u32)> = BTreeSet::new();
@@ -274,7 +309,7 @@ impl Ctx {
 		// a claim regenerated after its parent re-confirms starts from a fresh feerate
 		if txs.iter().any(|t| { let id = t.compute_txid(); id == self.revoked_txid || self.cand_ids.contains(&id) }) { self.last_fee.clear(); }
 		let block = create_dummy_block(node.best_block_hash(), h + self.fork_id * 100_000, txs);
-		connect_block(node, &block);
+		if let Err(p) = guarded(AssertUnwindSafe(|| connect_block(node, &block))) { panic!("{} [{}]", p, roundtrip_detail(node, self.chan_id)); }
 		self.after(net, Some(format!("conn {}", toks)), class);
 	}
 	/// `n` empty blocks through `connect_blocks` (the `*SkippingBlocks` styles deliver only the last one)
@@ -589,6 +624,7 @@ fn justice_scenario(seed: u64, thorough: bool, index: u64) -> Result<Outcome, St
 	// offered HTLC outputs then fall into the "pinnable" aggregation cluster (cltv_expiry <= height + 12), apart from the to_local claim
 	let pre_gap = if rng.chance(1, 4) { rng.range(20, 45) as u32 } else { 0 };
 	if pre_gap > 0 { connect_blocks(&net.nodes[victim], pre_gap); }
+	let own_commitments: BTreeSet<Txid> = { let funding = captured[0].input[0].previous_output; net.nodes[victim].tx_broadcaster.txn_broadcasted.lock().unwrap().iter().filter(|t| t.input.len() == 1 && t.input[0].previous_output == funding).map(|t| t.compute_txid()).collect() };
 	net.nodes[victim].tx_broadcaster.txn_broadcasted.lock().unwrap().clear();
 	let _ = net.nodes[victim].chain_monitor.chain_monitor.get_and_clear_pending_events();
 	let mut prevouts: HashMap<OutPoint, TxOut> = HashMap::new();
@@ -600,7 +636,7 @@ fn justice_scenario(seed: u64, thorough: bool, index: u64) -> Result<Outcome, St
 	// input by input: the commitment output it spends (with the 5-element witness of an HTLC transaction), `x` for anything else
 	let spends_of = |t: &Transaction| t.input.iter().map(|i| if i.previous_output.txid == revoked_txid && i.witness.len() == 5 { i.previous_output.vout.to_string() } else { "x".to_string() }).collect::<Vec<_>>().join("+");
 	let plain = |t: &Transaction| t.input.iter().all(|i| i.previous_output.txid == revoked_txid && i.witness.len() == 5);
-	let mut cx = Ctx { seed, style: format!("{:?}", style), chan_id, lax, disconnected_once: false, funding: revoked_tx.input[0].previous_output, revoked_txid, me: me.clone(), cand: cand.clone(), cand_ids, noise: BTreeSet::new(),
+	let mut cx = Ctx { seed, style: format!("{:?}", style), chan_id, lax, disconnected_once: false, funding: revoked_tx.input[0].previous_output, revoked_txid, me: me.clone(), cand: cand.clone(), cand_ids, noise: BTreeSet::new(), own_commitments: own_commitments.clone(),
 		prevouts, bcast: vec![], evicted: 0, last_issue: BTreeMap::new(), last_fee: BTreeMap::new(), spendable: BTreeMap::new(), to_remote: BTreeMap::new(), final_txs: BTreeSet::new(), max_conf: BTreeMap::new(), kf1: BTreeSet::new(), kf1_style: matches!(style, ConnectStyle::TransactionsFirstReorgsOnlyTip), issue_height_override: None, fork_id: 0,
 		stream: Stream::default(), oracle: vec![], soft: vec![], soft_kinds: BTreeSet::new(), classes: vec![], stale_seen: 0 };
 	hist_push(format!("{:?}: {} channel, revoked commitment {} ({} outputs: {}), {} second-stage txs held by the cheater, tip {}", style, if anchors { "anchor" } else { "legacy" }, me.n, me.outs.len(), outs_tok, cand.len(), net.nodes[victim].best_block_info().1));
@@ -727,6 +763,10 @@ fn main() {
 					// knows the true tip) panics on that.  Not a property verdict: the scenario is discarded and counted.
 					Err(p) if p.contains("We should never broadcast a transaction before its locktime") && hist_show().contains("ReorgsOnlyTip") && hist_show().contains("disconnect ") => {
 						rec.discarded += 1; *rec.classes.entry("discarded:txonly-style broadcast with a stale tip (TestBroadcaster locktime assertion)".into()).or_insert(0) += 1; },
+					// TestChainMonitor (a test utility) asserts monitor == its round trip inside update_channel; the one benign difference above
+					// (counterparty_spendable_height zeroed by PackageTemplate::read) makes it panic: discarded and counted, anything else is reported
+					Err(p) if p.contains("new_monitor == *monitor") && p.contains("fields [\"onchain_tx_handler\"] [") && { let d = p.split("fields [\"onchain_tx_handler\"] [").nth(1).unwrap_or("").split("] differ").next().unwrap_or("x").to_string(); !d.is_empty() && d.split(", ").all(|e| e.ends_with(":[\\\"counterparty_spendable_height\\\"]\"")) } => {
+						rec.discarded += 1; *rec.classes.entry("discarded:TestChainMonitor round-trip assertion on counterparty_spendable_height zeroed by PackageTemplate::read".into()).or_insert(0) += 1; },
 					Err(p) => rec.oracle_fail(format!("scenario {} (seed {}) panicked: {} — history: {}", k, s, p.replace('\n', " ").chars().take(300).collect::<String>(), hist_show())),
 				}
 			}
